@@ -180,20 +180,21 @@ func (c *Z1) Dec() (int64, bool) { return 0, true }
 
 // ---- pointer-bearing types ------------------------------------------------------
 
-type Ptr struct{ P *Box }
+// Ptr keeps its pointer in an unexported field (the only pointer of the type).
+type Ptr struct{ p *Box }
 
 func (c *Ptr) Enc(v int64) {
 	if v == 0 {
-		c.P = nil
+		c.p = nil
 		return
 	}
-	c.P = newBox(v)
+	c.p = newBox(v)
 }
 func (c *Ptr) Dec() (int64, bool) {
-	if c.P == nil {
+	if c.p == nil {
 		return 0, true
 	}
-	return c.P.V, c.P.OK() && c.P.V != 0
+	return c.p.V, c.p.OK() && c.p.V != 0
 }
 
 // Fn refers to its pointees through a func value (closure) and an unsafe.Pointer only.
